@@ -64,7 +64,15 @@ pub fn replay_case(prop: &str, case: &Value) -> Vec<Divergence> {
         }
         Some("fields") => c05_fields_case(case["fen"].as_str().unwrap()),
         Some("extreme-clocks") => c02_extreme_clocks().1.into_iter().flat_map(|x| x.1).collect(),
-        Some("constructors") => c05_constructors(),
+        Some("constructors") => {
+            if prop == "C04" {
+                let mut bd = vec![];
+                let _ = c05_builder_sequences(&mut bd);
+                bd.into_iter().filter(|x| x.class.contains("hash")).collect()
+            } else {
+                c05_constructors()
+            }
+        }
         _ => machinery_failure("replay: unknown case kind"),
     }
 }
@@ -174,6 +182,13 @@ pub fn run(prop: &str, args: &Args) -> i32 {
     // property-specific closed enumerations
     let mut extra = json!({});
     if prop == "C04" {
+        // the builder is the other from-scratch constructor: its hash must equal the parser's for
+        // every call sequence (rejected placements, removals, re-placements)
+        let mut bd = vec![];
+        let nseq = c05_builder_sequences(&mut bd);
+        let bd: Vec<Divergence> = bd.into_iter().filter(|x| x.class.contains("hash")).collect();
+        report.record(&bd, || json!({"kind": "constructors"}));
+        totals.states += nseq;
         let (keys, d) = c04_keys();
         report.record(&d, || json!({"kind": "keys"}));
         extra = json!({"key_table_entries": keys.len(), "key_pairs_compared": keys.len() * (keys.len() - 1) / 2});
